@@ -36,6 +36,7 @@ structure Schema where
   query : String := "Query"
   mutation : String := "Mutation"
   isSubgraph : Bool := false     -- a subgraph knows @requires inputs only from the representation it is sent
+  failed : List (String × String) := []   -- (type, field) coordinates whose only source is unavailable (fault reference)
 
 def Schema.type? (s : Schema) (n : String) : Option TypeDef := s.types.find? (·.name == n)
 
@@ -167,19 +168,23 @@ def keyArgNames : List String := ["id", "upc", "code", "sku"]
 
 /-- the value of a field of a node before arguments are applied; computed fields read their inputs from the
     representation the entity was addressed by (subgraph) or from the node itself (monolith) -/
-def baseValue (sub : Bool) (u : Universe) (i : Nat) (overlay : Option Json) (field : String) : FVal :=
+def baseValue (sub : Bool) (failed : List (String × String)) (u : Universe) (i : Nat) (overlay : Option Json) (field : String) : FVal :=
   match u.nodes[i]? with
   | none => .null
   | some node =>
     if field == "__typename" then .scalar (.str node.type)
     else match lookupKV node.fields field with
       | some (.computed src) =>
+        if src.any (fun f => failed.contains (node.type, f)) then .err "an input of the computed field is unavailable" else
         let parts := src.map fun f =>
           match overlay.bind (·.get? f) with
           | some j => (match j with | .str s => s | other => other.render)
           | none =>
             if sub || overlay.isSome then "MISSING"   -- a subgraph only knows what the representation tells it
-            else scalarText ((lookupKV node.fields f).getD .null)
+            else match lookupKV node.fields f with
+              | some (.computed src2) =>     -- an input that is itself computed (a chain of @requires)
+                "c(" ++ ",".intercalate (src2.map fun g => scalarText ((lookupKV node.fields g).getD .null)) ++ ")"
+              | other => scalarText (other.getD .null)
         .scalar (.str ("c(" ++ ",".intercalate parts ++ ")"))
       | some v => v
       | none => .null
@@ -250,7 +255,8 @@ mutual
         let args := given ++ argDefaults.filter fun (k, _) => !given.any (·.1 == k)
         let raw :=
           if c.name == "_entities" then resolveEntities s u ((lookupKV args "representations").getD .null)
-          else applyArgs u args (baseValue s.isSubgraph u i overlay c.name)
+          else if s.failed.contains (objType, c.name) then .err "the subgraph that owns this field failed"
+          else applyArgs u args (baseValue s.isSubgraph s.failed u i overlay c.name)
         let (v, e) := complete s u op vars fuel ftype raw c.sels
         match v with
         | some j => (some (out ++ [(c.key, j)]), acc.2 ++ e)
